@@ -162,7 +162,7 @@ def judge(ck, events, hists, label):
     verdicts, part, n = [], [], 0
     for k, e in enumerate(events):
         part.append(e)
-        if len(part) >= 2500 and (k + 1 == len(events) or events[k + 1]["i"] == 1):
+        if len(part) >= 6000 and (k + 1 == len(events) or events[k + 1]["i"] == 1):
             verdicts += ck.trace("UseStack_Trace", part, label=f"{label}[{n}]", timeout=ck.pick(1500, 10800))
             part, n = [], n + 1
     if part:
@@ -405,9 +405,10 @@ S4 = ["glob", "any_a", "eq_a1", "ge_a2"]
 def model_check(ck):
     W = 4
     # the repaired design is verified ...
-    ck.mc("UseStack_Collapse", cfg_text=collapse_cfg(FIXED, 3, 1, S2), workers=W, timeout=ck.pick(1500, 10800), label="MC:Collapse repaired N=3 2 scopes")
-    ck.mc("UseStack_MC", cfg_text=mech_cfg(FIXED, 2, 1, ["glob", "eq_a1"]), workers=W, timeout=ck.pick(1500, 10800),
-          label="MC:mechanism repaired NA=2 NB=1 2 scopes")
+    if ck.quick:  # (the thorough tier runs the same models over more scopes below)
+        ck.mc("UseStack_Collapse", cfg_text=collapse_cfg(FIXED, 3, 1, S2), workers=W, timeout=1500, label="MC:Collapse repaired N=3 2 scopes")
+        ck.mc("UseStack_MC", cfg_text=mech_cfg(FIXED, 2, 1, ["glob", "eq_a1"]), workers=W, timeout=1500,
+              label="MC:mechanism repaired NA=2 NB=1 2 scopes")
     # ... and the legacy design is refuted by TLC (counterexamples kept in the evidence; whether the
     # implementation under test still has them is decided by the traces below, not here)
     cex = {}
@@ -418,7 +419,6 @@ def model_check(ck):
         ck.mc("UseStack_Collapse", cfg_text=collapse_cfg(FIXED, 3, 1, S3), workers=W, timeout=10800, label="MC:Collapse repaired N=3 3 scopes")
         ck.mc("UseStack_MC", cfg_text=mech_cfg(FIXED, 2, 1, ["glob", "any_a", "eq_a1"]), workers=W, timeout=10800,
               label="MC:mechanism repaired NA=2 NB=1 3 scopes")
-        ck.mc("UseStack_Collapse", cfg_text=collapse_cfg(FIXED, 3, 1, S4), workers=W, timeout=10800, label="MC:Collapse repaired N=3 4 scopes")
         ck.mc("UseStack_Collapse", cfg_text=collapse_cfg(FIXED, 2, 2, S3), workers=W, timeout=10800, label="MC:Collapse repaired N=2 two-token entries")
         ck.mc("UseStack_MC", cfg_text=mech_cfg(FIXED, 3, 1, ["glob", "eq_a1"]), workers=W, timeout=10800,
               label="MC:mechanism repaired NA=3 NB=1 2 scopes")
